@@ -1023,13 +1023,16 @@ func (c *rdCase) killElem(h int, elem string) {
 }
 
 func engineReflectDiff(rep *Report) {
-	subs := subjectsForShard()
+	subs := allSubjects()
 	n := perType(60, 3000)
 	only := onlyIndex()
 	for ti, s := range subs {
 		tn := string(s.FullName)
 		rep.Types = append(rep.Types, tn)
 		for i := 0; i < n; i++ {
+			if only < 0 && !mineCase(ti, i) {
+				continue
+			}
 			if only >= 0 && i != only {
 				continue
 			}
